@@ -209,6 +209,61 @@ Proof.
 Qed.
 Print Assumptions C17_rotation_contract_R.
 
+(* end to end, antipodal=True on the reals.  Exact keys: two inputs are sent to
+   the same returned rotation IFF they have the same flag and are equal up to
+   sign (q ~ -q); *)
+Theorem C17_rotation_antipodal_merge_exact :
+  forall (flat : list (rot (T:=R))) (i j : nat), i < length flat -> j < length flat ->
+  let inv := snd (rotation_unique ROps (fun x => x) (fun x => x) true flat) in
+  nth i inv 0 = nth j inv 0 <->
+  (snd (nth i flat (zrot ROps)) = snd (nth j flat (zrot ROps)) /\
+   (fst (nth j flat (zrot ROps)) = fst (nth i flat (zrot ROps)) \/
+    fst (nth j flat (zrot ROps)) = qneg ROps (fst (nth i flat (zrot ROps))))).
+Proof. exact rotation_merge_exact. Qed.
+Print Assumptions C17_rotation_antipodal_merge_exact.
+
+(* for EVERY rounding function q and -q with the same flag are merged; *)
+Theorem C17_rotation_antipodal_always_merged :
+  forall (rnd10 rnd12 : R -> R) (flat : list (rot (T:=R))) (i j : nat),
+  i < length flat -> j < length flat ->
+  snd (nth i flat (zrot ROps)) = snd (nth j flat (zrot ROps)) ->
+  (fst (nth j flat (zrot ROps)) = fst (nth i flat (zrot ROps)) \/
+   fst (nth j flat (zrot ROps)) = qneg ROps (fst (nth i flat (zrot ROps)))) ->
+  let inv := snd (rotation_unique ROps rnd10 rnd12 true flat) in
+  nth i inv 0 = nth j inv 0.
+Proof. exact rotation_merge_always. Qed.
+Print Assumptions C17_rotation_antipodal_always_merged.
+
+(* and for every rounding function of resolution delta < 1/2 whatever is
+   merged has the same flag and is the same rotation up to 32 delta^2
+   (this is the statement that covers the 1e-12 threshold stratum) *)
+Theorem C17_rotation_antipodal_merge_rounded :
+  forall (rnd10 rnd12 : R -> R) (delta : R) (flat : list (rot (T:=R))) (i j : nat),
+  (forall x, Rabs (rnd12 x - x) <= delta)%R -> (delta < / 2)%R ->
+  i < length flat -> j < length flat ->
+  qnorm2 ROps (fst (nth i flat (zrot ROps))) = 1%R -> qnorm2 ROps (fst (nth j flat (zrot ROps))) = 1%R ->
+  let inv := snd (rotation_unique ROps rnd10 rnd12 true flat) in
+  nth i inv 0 = nth j inv 0 ->
+  snd (nth i flat (zrot ROps)) = snd (nth j flat (zrot ROps)) /\
+  (1 - 32 * (delta * delta)
+   <= qdot ROps (fst (nth i flat (zrot ROps))) (fst (nth j flat (zrot ROps)))
+      * qdot ROps (fst (nth i flat (zrot ROps))) (fst (nth j flat (zrot ROps))))%R.
+Proof. exact rotation_merge_rounded. Qed.
+Print Assumptions C17_rotation_antipodal_merge_rounded.
+
+(* Object3d.unique on rows of reals, every rounding function: no repeated
+   row; every non-zero rounded input row is returned; nothing else is; order
+   of first appearance *)
+Theorem C17_base_contract_R :
+  forall (rnd10 : R -> R) (flat : list (list R)),
+  let out := fst (fst (base_unique ROps rnd10 flat)) in
+  NoDup out /\
+  (forall r, In r flat -> row_iszero ROps (map rnd10 r) = false -> In (map rnd10 r) out) /\
+  (forall y, In y out -> exists r, In r flat /\ y = map rnd10 r /\ row_iszero ROps y = false) /\
+  out = nubk (rowcmp ROps) (fun r => r) (filter (fun e => negb (row_iszero ROps e)) (map (map rnd10) flat)).
+Proof. exact base_unique_R. Qed.
+Print Assumptions C17_base_contract_R.
+
 (* Rotation.unique on an empty input returns the bare object whatever flags
    are passed (the caller's tuple unpacking fails) *)
 Theorem C17_rotation_empty_arity_refuted :
